@@ -121,6 +121,16 @@ def oracle_no_panic(line, impl, model_kv, impl_kv=None, model=None):
     return None
 
 PROPS = {
+    "C01": dict(
+        suites=["exec-matrix", "exec-memops", "exec-random", "exec-long"], oracle=oracle_no_panic, level="proof", model_is_spec=True, case_suffix=" spec=isa",
+        nontrivial=lambda line, impl: impl.split()[0] in ("ok",) or impl.startswith("err"),
+        rule="suites exec-matrix + exec-memops + exec-random + exec-long: every ALU / byte-swap / jump opcode x all (dst,src) register pairs x boundary operand values (V64 x V64 for register forms, "
+             "V64 x I32 for immediate forms, shift counts 31..65, i64::MIN, upper halves set), taken/not-taken x forward/backward for every conditional jump, lddw for every register, "
+             "all load/store/xadd/ldabs/ldind widths x registers x offsets, random structured programs with loops, stack traffic, helpers, local calls, calculators, and programs of 33,000 and 66,000 "
+             "(thorough: 140,000 and 999,999) instructions with maximal forward/backward jumps and wide loads across the 2^15/2^16 boundaries. Each case is compared with the interpreter model AND with the ISA "
+             "specification (spec=). Non-trivial: distinct program that ran to a value or an error.",
+        trusted=EXEC_TRUST,
+    ),
     "C05": dict(
         suites=["exec-accepted", "exec-random", "exec-calls"], oracle=oracle_no_panic, level="proof", model_is_spec=True,
         nontrivial=lambda line, impl: impl.split()[0] not in ("rejected", "bad-op"),
@@ -205,7 +215,7 @@ def load_known():
             if l and not l.startswith("#"): out.append(json.loads(l))
     return out
 
-def match_known(known, pid, line, impl, model_kv):
+def match_known(known, pid, line, impl, model_kv, mod=None):
     for k in known:
         if k.get("status") != "known" or k.get("property") != pid: continue
         m = k.get("match", {})
@@ -213,6 +223,7 @@ def match_known(known, pid, line, impl, model_kv):
         if "case_regex" in m and not re.search(m["case_regex"], line): ok = False
         if "tag" in m and m["tag"] not in model_kv.get("tags", "").split(","): ok = False
         if "impl_regex" in m and not re.search(m["impl_regex"], impl): ok = False
+        if m.get("model_agrees") and mod is not None and impl != mod: ok = False      # the model reproduces the finding exactly; anything else is new
         if ok and m: return k
     return None
 
@@ -267,13 +278,13 @@ def run_property(core, pid, tier, seed, replay):
         if why is None and impl != mod and cfg.get("model_is_spec"):
             why = "implementation gives '%s' where the proved model gives '%s'" % (impl, mod)
         if why:
-            k = match_known(known, pid, line, impl, mkv)
+            k = match_known(known, pid, line, impl, mkv, mod)
             if k:
                 known_hit.setdefault(k["what"], 0); known_hit[k["what"]] += 1
             else:
                 pviol.append(dict(case=line, impl=impl, model=mod, why=why))
         elif impl != mod:
-            k = match_known(known, pid, line, impl, mkv)
+            k = match_known(known, pid, line, impl, mkv, mod)
             if k: known_hit.setdefault(k["what"], 0); known_hit[k["what"]] += 1
             else: mism.append(dict(case=line, impl=impl, model=mod))
     rc = 0
